@@ -305,8 +305,9 @@ CLAIMED = {
             "lengths 0..40); the logs of group-level calls made by ep_mul_monty, ep_mul_lwreg (plain and GLV), ep2_mul_monty, eb_mul_lodah, "
             "bn_mxp_monty, fp_exp_monty, fb_exp_monty are recorded from the library for scalars of every shape named in the property on every "
             "curve and compared with the model log and with the value k*P. PARTIAL: GLV / exponentiation / Lopez-Dahab logs are closed forms "
-            "tied by comparison only; ep2_mul_lwreg, Edwards and the pc_*_sec wrappers are not covered; nothing is claimed below the group "
-            "level or about the compiler's code generation.",
+            "tied by comparison only; ep2_mul_lwreg, g1/g2_mul_sec, gt_exp_sec and the Edwards ladder / regular recoding (255-bit "
+            "configuration) have no log model and are decided in the relational form (two scalars of the same public length must produce "
+            "identical logs); nothing is claimed below the group level or about the compiler's code generation.",
             "Trusted: Lean kernel; tools/translate_ct.py; the C compiler (ternary of constants -> setcc/cmov); linker interposition sees only "
             "calls that cross object files; k = 0, P = O and the sign of an exponent are treated as public.",
             "DESIGN.md §6 (C20)"),
